@@ -64,17 +64,21 @@ var propertyClauses = map[string]clauseInfo{
 	},
 	"C11": {
 		decided: []string{
+			"emphasisFlags equals the left/right-flanking, can-open and can-close definitions of section 6.2 as a function of the characters around the run",
 			"isEmphasisDelimiterMatch equals rules 9 and 10 of section 6.2 over the original run lengths, for all operands",
-			"soundness condition of processEmphasis's search-bound cache: whether an opener matches a closer depends on the closer only through openersBottomIndex (proved over the real functions through a verif-tagged harness)",
-			"openersBottomIndex stays inside the bounds array",
+			"openersBottomIndex equals the bucket function Bucket(delimiter, can-open, length mod 3) and stays inside the bounds array; lemma BucketMatch: for a potential closer c, match(o, c) <==> MatchB(o, Bucket(c)) (and the harness verifBucketLemma over the real functions)",
+			"processEmphasis, loop invariant INV: for every bucket k no element of the stack between stack_bottom and openersBottom[k] can match a closer of bucket k — established at entry, preserved when a bound is raised after a failed search, and preserved under every deletion from the stack (deleteDelimiterStack's shift contract, bounds clamped to the opener); hence a search that gives up at the cached bound has the result of the unbounded search of the specification",
+			"processEmphasis, at every wrap: the opener is the nearest element below the closer that matches it (rules 9/10 included), the closer is a '*'/'_' element with the closer flag, and strong emphasis is produced exactly when both delimiter nodes still have two characters (the spans have just been shortened by 2, else by 1)",
+			"deleteDelimiterStack: elements below i keep their place, elements from j on move down by j-i, same backing array",
 		},
 		notDecided: []string{
-			"left/right-flanking and can-open/can-close computation (emphasisFlags) is not yet under a functional contract",
-			"that processEmphasis keeps its search bounds valid under deletions, selects closers/openers as the procedure prescribes, and that wrap/remove build the corresponding tree",
+			"that the closer loop visits closers in stack order without skipping one (the inner scan is not given a two-state contract), and termination of the closer loop (it depends on the lengths of the delimiter nodes)",
+			"that wrap/remove build the tree the abstract algorithm prescribes (tree surgery is abstracted; the bounded stand-in of C13/C02 checks the resulting spans on small inputs)",
 		},
 	},
 	"C01": {
 		decided: []string{
+			"BOUNDED (not a proof; see coverage.bounded; stands in for A-C01-1/A-C01-2): order, gaps, Source, StartLine, aliasing and non-mutation of the root blocks on every input up to the stated bound",
 			"padNulls: every byte at index k >= start moves to k + 2*(number of NULs in [start,k)), each NUL becomes three zero bytes, the prefix is kept; without a NUL the result is the argument and no byte of any array is written; when the result does not fit the capacity it is a fresh array (so the caller's buffer is not written)",
 			"readline: the bytes already buffered are never changed; once an error is latched the buffer is not touched at all",
 			"makeRoot: Source is the first n bytes of the buffer (same array, capacity clipped), StartLine/StartOffset are the parser's counters, EndOffset = StartOffset + unpadded length of those bytes, and the counters advance by exactly that range (line count of the bytes, unpadded length)",
@@ -106,6 +110,7 @@ var propertyClauses = map[string]clauseInfo{
 	},
 	"C12": {
 		decided: []string{
+			"BOUNDED (not a proof; see coverage.bounded): every reference-style link or image names a key of the returned map, and (outside containers) its reference is the normal form of its label, on every input up to the stated bound",
 			"Extract never replaces an existing entry (the map update is reached only for a key that is absent), never stores the empty label, and stores under the label node's normalised reference; MatchReference is key presence",
 			"Extract examines blocks in document order: explicit-stack step contract (each iteration pops the top, leaves the rest of the stack unchanged, pushes the children of a non-definition block in reverse) plus the code-independent lemma L-DFS; hence among competing definitions inside one root block the first in source order is the one stored",
 			"label normalisation returns the Unicode case fold (assumed dependency golang.org/x/text/cases) of the collapsed text stripped of ' ' only, on every path, exactly once; Unicode whitespace other than space/tab/line ending is not stripped",
@@ -119,6 +124,8 @@ var propertyClauses = map[string]clauseInfo{
 	},
 	"C13": {
 		decided: []string{
+			"BOUNDED (not a proof; see coverage.bounded): the shape of every construct listed in the statement (emphasis, code span, link/image, autolink, raw HTML tag, character reference, hard break, list marker, ATX, setext, fence, block quote) on the finished trees of every input up to the stated bound",
+			"processEmphasis: strong emphasis is produced exactly when both delimiter nodes still have two characters after the shortening just done, emphasis otherwise (site obligation at wrap) — so an emphasis node's delimiters are taken from the runs and never from the text beyond them",
 			"character reference nodes select &name; / &#D{1,7}; / &#xH{1,6}; (parseCharacterEscape's postcondition carried to the node created in parse)",
 			"autolink nodes select <...> and have exactly one text child spanning the inside; soft line break nodes select \\n, \\r or \\r\\n; hard line break nodes select a backslash, or two or more spaces followed only by spaces and line-ending characters (parseHardLineBreakSpace, parseBackslash)",
 			"these shapes are obligations at every addToRoot call of the tokeniser (parse, parseBackslash), for every path through the scanning loop",
@@ -152,6 +159,8 @@ var propertyClauses = map[string]clauseInfo{
 			"character boundaries, for valid UTF-8 input: the spans of the nodes the tokeniser creates directly (character references, autolinks and their text child, soft and hard line breaks, and the text nodes made by parseBackslash) begin and end on character boundaries — obligations at every addToRoot call, for every path",
 			"an autolink's text child lies inside the autolink's span",
 			"a root block's span ends at len(Source) (makeRoot)",
+			"spanEnd: under A-C02-1 the end of the text run being tokenised never passes the end of the container whose inline children are being built, also after the cursor has moved past the last unparsed node (failed on the pinned tree: the trailing text node ran to len(Source); fixed: a560e6b)",
+			"BOUNDED (not a proof; see coverage.bounded): all C02 clauses on the finished trees of every input up to the stated bound, evaluated on the real Parse",
 			"the inline byte reader (next, current, currentNode, remainingNodeBytes) over nodes that are non-nil, inside the source and in source order never moves backwards, stays within the source, and lands only on node starts when it jumps; on top of it the HTML tag, link label, link destination and link title scanners return either null spans or valid ranges of the source that start at the reader's position (non-empty except a bare destination), with the inner/text span inside the outer one for labels",
 		},
 		notDecided: []string{
@@ -164,6 +173,8 @@ var propertyClauses = map[string]clauseInfo{
 		decided: []string{
 			"ATX heading content is exactly the section 4.2 raw contents (parseATXHeading, shared with C15; one open known finding)",
 			"inside the tokeniser, a node created for a construct (character reference, autolink, soft/hard line break) starts exactly where the plain-text node added just before it ended, so no byte is lost or covered twice around these constructs",
+			"spanEnd stays inside the container (shared with C02): the trailing text node of a block cannot cover the lines that follow it",
+			"BOUNDED (not a proof; see coverage.bounded): no byte under two leaves, every letter/digit/non-ASCII byte under exactly one leaf, on every input up to the stated bound (found the missing cursor advance after a full reference link with a multi-line label; fixed: 8fdfd7e)",
 		},
 		notDecided: []string{
 			"tiling of a whole unparsed run across loop iterations and across the abstracted calls (delimiter runs, brackets, code spans, raw HTML), the multi-line cursor jumps, collectTextNodes / collectCodeSpan, list markers and block-level text collection (addLineText)",
@@ -171,6 +182,7 @@ var propertyClauses = map[string]clauseInfo{
 	},
 	"C05": {
 		decided: []string{
+			"BOUNDED (not a proof; see coverage.bounded): the whole node grammar and the accessor clauses of the statement (list/item/marker, definition children, phrasing-only paragraphs and headings, code/HTML block children, link/image tails, no link in a link, no unparsed node) on the finished trees of every input up to the stated bound",
 			"accessors agree with the shape: HeadingLevel is the stored level for ATX/setext headings and 0 elsewhere; IsOrderedList/IsTightList are functions of the delimiter / looseness fields; ListItemNumber is -1 or 0..999999999; LinkDestination/LinkTitle return a child of that kind among the last two children, or nil; InfoString is the first inline child of a fenced block when it has that kind",
 			"heading levels handed to the tree are 1-6 for ATX headings (parseATXHeading's level) and 1-2 for setext headings, at the call sites of the block-start closures",
 			"a list item is opened together with its list marker (the marker block is opened immediately after the item, before any input is consumed, and closed after exactly the marker's bytes), so the marker is the item's first child; list and item carry the marker's delimiter; ordered numbers come from parseListMarker (0..999999999)",
@@ -203,11 +215,11 @@ var propertyClauses = map[string]clauseInfo{
 			"filterRaw (O2-O5, two-state loop obligations on the scanner's own state variable): a '<' followed by neither a letter nor '/', '!', '?' is text and nothing after it is skipped (O2); after any other '<' in copy state that does not open a comment, CDATA section or declaration the scanner is back in copy state no later than right after the first '>' (O5); a comment ends at '-->' or '--!>' and at once when its text starts with '>' or '->' (O3); CDATA and declarations end at the first '>' (O4); inside a skipped construct the scanner examines every byte. These failed on the pinned tree for '<3 <script>', '<!-->', '<![CDATA[ > ...' (fixed: 8f27adc)",
 			"openTagAttr/openTag: the renderer's own start tags are put to the predicate with the atom's name and escaped exactly when it rejects; closeTag emits the tag with or without its '<' escaped",
 			"htmlTagNameEnd, maybeLower, toLowerASCII: exact contracts; FilterTagGFM rejects exactly the nine raw-text element names",
+			"O6: no string the emission functions (preBlock, postBlock, preInline, postInline, appendAltText) append themselves contains '<' — the renderer's own tags reach the output through openTagAttr/openTag/closeTag only; failed on the pinned tree for the literal \"<br>\\n\" of hard line breaks (fixed: ff06885)",
 		},
 		notDecided: []string{
 			"the tokenizer lemma L-C17 (DESIGN 7.17: O1-O5 imply that an HTML tokenizer reading the output sees no rejected start tag) is a paper proof over the WHATWG data-state rules, not machine-checked; O2-O5 are the per-iteration facts about the real scanner it needs",
 			"attribute values: after a tag the scanner resumes at the first '>' even inside a quoted attribute value, which is earlier than the tokenizer (the safe direction); that the tokenizer cannot then be inside a tag where the filter sees text is part of L-C17",
-			"the literal <br> of hard line breaks is not routed through the predicate (O6)",
 		},
 	},
 	"C18": {
